@@ -43,7 +43,7 @@ def lopar(gram, lexicon, dest, dest_enc, **params):
                     startsymbols[func[0]] += count
                 lhs = u"%s" % func[0]
                 rhs = ' '.join([u"%s" % func[i + 1]
-                                for i in range(len(func[1:]))])
+                                for (i, _) in lin[0]])
                 print(f"{count} {lhs} {rhs}", file=gram_stream)
         for word in lexicon:
             if any(c in BRACKETS for c in word):
